@@ -154,6 +154,8 @@ pub struct Sim {
     pub watch: Vec<(usize, Vec<u8>)>,
     /// (step, node, key, value as returned by the store right after the command)
     pub watch_log: Vec<(u64, usize, Vec<u8>, Option<Vec<u8>>)>,
+    /// network partition: every request between simulated nodes is lost
+    pub partitioned: bool,
 }
 
 pub fn quic_addr(port: u16) -> Multiaddr {
@@ -180,6 +182,7 @@ impl Sim {
             graveyard: vec![],
             watch: vec![],
             watch_log: vec![],
+            partitioned: false,
         }
     }
 
@@ -405,7 +408,7 @@ impl Sim {
         match cmd {
             NetworkSwarmCmd::SendRequest { req, peer, sender } if peer != self.nodes[i].peer => {
                 match self.node_index(&peer) {
-                    Some(t) if !self.nodes[t].is_client => {
+                    Some(t) if !self.nodes[t].is_client && !self.partitioned => {
                         match req {
                             Request::Cmd(Cmd::Replicate { holder, keys }) => {
                                 self.nodes[i].sent_replicates.push((peer, holder.clone(), keys.clone()));
